@@ -152,6 +152,30 @@ func runC07(r *mc.Run) {
 			add(fmt.Sprintf("level-order/%sdates=%s", name, []string{"equal", "ascending", "descending"}[mode]), nil, func(e *world.EnclaveIdentity) { e.TcbLevels = lsCopy })
 		}
 	}
+	// long level lists: the first listed level with isvsvn <= the report's decides, however many precede / follow it
+	for _, n := range []int{8, 9, 16, 17, 33, 64, 100} {
+		for _, pos := range []int{-1, 0, 1, n / 2, n - 2, n - 1} {
+			for _, st := range statuses {
+				var ls []world.Level
+				other := "UpToDate"
+				if st == "UpToDate" {
+					other = "Revoked"
+				}
+				for k := 0; k < n; k++ {
+					switch {
+					case pos >= 0 && k == pos:
+						ls = append(ls, mkLevel(8-k%2, st))
+					case pos >= 0 && k > pos:
+						ls = append(ls, mkLevel(8-k%3, other))
+					default:
+						ls = append(ls, mkLevel(9+(n-k)%5, "UpToDate"))
+					}
+				}
+				lsCopy := ls
+				add(fmt.Sprintf("long-levels/n=%d,first-match@%d:%s", n, pos, st), nil, func(e *world.EnclaveIdentity) { e.TcbLevels = lsCopy })
+			}
+		}
+	}
 	for _, v := range []int{0, 7, 9, 0x0800, 0xffff} {
 		v := v
 		add(fmt.Sprintf("isvsvn/report=%#x", v), func(qe []byte) { binary.LittleEndian.PutUint16(qe[258:], uint16(v)) }, nil)
